@@ -57,6 +57,25 @@ def mapping(case, lay_old, lay_new, sname):
     return m
 
 
+def boundary_sections(sname, old, new):
+    """deterministic [suppress_type] sections whose insertion ranges sit ON the boundaries of this very pair (measured layout): `end`, the
+    offsets of / after the last old members, and the inserted member's own offset -1 / +0 / +1 -- the places where `>` and `>=` differ"""
+    F = S.supprfile
+    at = lambda b: F.section("type", name=sname, ranges=[F.range_at(b)])
+    btw = lambda b, e: F.section("type", name=sname, ranges=[F.range_between(b, e)])
+    oldn = [m["n"] for m in old["members"]]
+    secs = [at(F.END), btw(F.END, F.END)]
+    for m in old["members"][-2:]:
+        secs += [at(F.bnd("offset_of", m=m["n"])), at(F.bnd("offset_after", m=m["n"])), btw(F.bnd("offset_after", m=m["n"]), F.END),
+                 btw(F.bnd("int", v=0), F.bnd("offset_of", m=m["n"]))]
+    for x in [m for m in new["members"] if m["n"] not in oldn][:1]:
+        o = x["off"]
+        secs += [at(F.bnd("int", v=o)), at(F.bnd("int", v=o + 1)), btw(F.bnd("int", v=0), F.bnd("int", v=o)), btw(F.bnd("int", v=o), F.bnd("int", v=o))]
+        if o > 0:
+            secs += [btw(F.bnd("int", v=0), F.bnd("int", v=o - 1))]
+    return secs
+
+
 def main():
     c = vf.Check("C24", "model_checking")
     vf.build("hooks")
@@ -126,9 +145,11 @@ def main():
         for name, fields, odds, ngen, nuse in STRATA:
             pool = strata[name]
             picks += [(name, s) for s in (pool if len(pool) <= nuse else rng.sample(pool, nuse))]
+        if mut["kind"] in ("member-insert", "member-remove"):
+            picks += [("boundary", sec) for sec in boundary_sections(sname, old, new)]
         evs = []
         for k, (stratum, sec) in enumerate(picks):
-            s = S.instantiate(sec, m)
+            s = sec if stratum == "boundary" else S.instantiate(sec, m)
             for key in ("name_regexp", "name_not_regexp", "file_name_regexp", "soname_regexp"):
                 if s[key]["k"] == "invalid":
                     s[key] = dict(s[key], bad=bad[(k + idx) % len(bad)])
@@ -170,12 +191,13 @@ def main():
     c.cov["evaluations"] = len(live)
     c.cov["distinct_nontrivial"] = len({(e["case"], e["comp"], e["k"]) for e in live if e["hidden"] or e["section"]["ranges"] or e["section"]["name_regexp"]["k"] == "invalid"})
     c.cov["hidden"] = sum(1 for e in live if e["hidden"])
-    c.cov["by_stratum"] = {n: {"events": sum(1 for e in live if e["stratum"] == n), "hidden": sum(1 for e in live if e["stratum"] == n and e["hidden"])} for n, *_ in STRATA}
+    c.cov["by_stratum"] = {n: {"events": sum(1 for e in live if e["stratum"] == n), "hidden": sum(1 for e in live if e["stratum"] == n and e["hidden"])} for n in [x[0] for x in STRATA] + ["boundary"]}
     c.cov["by_mutation"] = {k: sum(1 for e in live if e["change"]["mutation"] == k) for k in sorted({e["change"]["mutation"] for e in live})}
     c.cov["malformed_patterns"] = bad
     c.cov["rule"] = ("TLC-generated program pairs with exactly one mutation (member insert / remove / swap / retype) of a struct reachable from an exported interface, "
                      "compiled by %s, layouts measured by a probe program; x [suppress_type] sections drawn by TLC from the component sets of Suppr.tla in 5 strata and renamed "
-                     "onto the pair; one event = baseline vs suppressed abidiff run; guard hidden => MayHide for some changed type of the model; non-trivial = events where "
+                     "onto the pair, plus for insertions / removals a deterministic stratum of ranges ON the pair's own boundaries (end, offset_of / offset_after of the last members, the "
+                     "inserted member's offset -1 / +0 / +1); one event = baseline vs suppressed abidiff run; guard hidden => MayHide for some changed type of the model; non-trivial = events where "
                      "something was hidden, or the section carries insertion ranges or a malformed pattern" % comps)
     for e in [e for e in live if e["hidden"]][:2] + [e for e in live if e["section"]["ranges"]][:2]:
         c.sample({k: e[k] for k in ("section", "hidden", "exit0", "exit1", "stratum")} | {"struct": e["change"]["struct"], "mutation": e["change"]["mutation"]})
